@@ -33,6 +33,21 @@ class TB(bytes):
     wire = None
 
 
+class Ref:
+    """A message part sent with copy=False: the buffer is read when the receiver takes the message (latest possible moment)."""
+
+    __slots__ = ('obj', 'wire')
+
+    def __init__(self, obj, wire):
+        self.obj, self.wire = obj, wire
+
+    def materialise(self):
+        b = TB(bytes(self.obj))
+        b.wire = self.wire
+
+        return b
+
+
 class Msg:
     __slots__ = ('parts', 'sent_at', 'seq', 'info', 'src')
 
@@ -405,7 +420,7 @@ class Socket:
 
                     continue
 
-                p.flight.append(Msg(self._tag(parts, info, seq), w.now, seq, info, self))
+                p.flight.append(Msg(self._tag(parts, info, seq, copy), w.now, seq, info, self))
                 p.nsent += 1
 
                 if net.log_wire:
@@ -425,7 +440,7 @@ class Socket:
 
                 raise ZMQError(msg='sim: blocking PUSH send at HWM not modelled')
 
-            p.flight.append(Msg(self._tag(parts, info, seq), w.now, seq, info, self))
+            p.flight.append(Msg(self._tag(parts, info, seq, copy), w.now, seq, info, self))
             p.nsent += 1
 
             if net.log_wire:
@@ -434,12 +449,16 @@ class Socket:
         else:
             raise ZMQError(msg=f'sim: send on socket type {typ}')
 
-    def _tag(self, parts, info, seq):
+    def _tag(self, parts, info, seq, copy=True):
         out = []
 
         for i, part in enumerate(parts):
-            b = TB(bytes(part))
-            b.wire = (info, seq)
+            if copy or isinstance(part, bytes):
+                b = TB(bytes(part))
+                b.wire = (info, seq)
+            else:
+                b = Ref(part, (info, seq))     # copy=False: libzmq keeps a reference, the bytes are read when the message goes out
+
             out.append(b)
 
         return out
@@ -453,7 +472,7 @@ class Socket:
 
             raise ZMQError(msg=f'sim: blocking recv on empty inbox of {self!r} (the code only receives after poll)')
 
-        return list(self.inbox.popleft().parts)
+        return [p.materialise() if isinstance(p, Ref) else p for p in self.inbox.popleft().parts]
 
 
 class Poller:
